@@ -32,19 +32,23 @@ def race_build(chk, sc, engine):
     return binp
 
 
-def race_run(chk, binp, work, prop, tier, seed, rev, replay_dir, budget_s):
+def race_run(chk, binp, work, prop, tier, seed, rev, replay_dir, budget_s, extra_env=None):
     """runs the race monitor on 1/2/4/16 CPUs; returns (outs, races) where races are detector reports"""
     procs = []
     cpus = [1, 2, 4, 16] if chk.NPROC >= 16 else [1, 2]
     for i, nc in enumerate(cpus):
         out = os.path.join(work, "race_out_%d.json" % i)
+        wd = os.path.join(work, "race_wd_%d" % i)
+        os.makedirs(wd, exist_ok=True)
         job = {"prop": prop, "tier": tier, "seed": seed, "i": i, "n": len(cpus), "out": out, "replay_dir": replay_dir,
-               "budget_s": budget_s, "repo_rev": rev, "det_check": 0, "mode": "race"}
+               "budget_s": budget_s, "repo_rev": rev, "det_check": 0, "mode": "race", "work_dir": wd}
         jp = os.path.join(work, "race_job_%d.json" % i)
         json.dump(job, open(jp, "w"))
         env = dict(chk.ENV)
         env["VERIF_JOB"] = jp
         env["GORACE"] = "halt_on_error=0 exitcode=0"
+        if extra_env:
+            env.update(extra_env)
         lp = os.path.join(work, "race_log_%d.txt" % i)
         cmd = ["taskset", "-c", "0-%d" % (nc - 1), binp, "-test.run", "TestBatch", "-test.timeout", "40m"]
         procs.append((subprocess.Popen(cmd, cwd=work, env=env, stdout=open(lp, "w"), stderr=subprocess.STDOUT), lp, out, nc))
